@@ -47,6 +47,9 @@ type Env struct {
 	Shared map[string]any
 	// Data is the scenario's own state for this run.
 	Data any
+	// OnCleanup hooks run when the run is over (free-run phase): release what
+	// the harness itself keeps parked for the whole run.
+	OnCleanup []func()
 }
 
 // Failf records the first violation and stops the run.
@@ -115,6 +118,9 @@ func Phased(e *Env, build func(*Env), final func(*Env)) {
 // ResetContext gives the run a fresh, uncancelled context (phased runs).
 func (e *Env) ResetContext() {
 	ctx, cancel := context.WithCancel(context.Background())
+	if e.Plan.X("ctx_deadline") == 2 {
+		ctx, cancel = newExpiringCtx(time.Now().Add(time.Hour))
+	}
 	e.Ctx, e.cancel = ctx, cancel
 	e.Cancelled.Store(false)
 	e.S.Watch(ctx.Done(), &e.Cancelled)
@@ -488,4 +494,37 @@ func DescribeTasks(ts []simrt.TaskInfo) string {
 		}
 	}
 	return s
+}
+
+// expiringCtx is a context that ends by *expiry*: whoever ends it (the
+// canceller task, under the scheduler), its Err is context.DeadlineExceeded and
+// it carries a deadline — what a context.WithTimeout looks like to the library
+// when the timeout strikes, without a runtime timer goroutine deciding when.
+type expiringCtx struct {
+	done     chan struct{}
+	once     sync.Once
+	mu       sync.Mutex
+	err      error
+	deadline time.Time
+}
+
+func newExpiringCtx(deadline time.Time) (context.Context, context.CancelFunc) {
+	c := &expiringCtx{done: make(chan struct{}), deadline: deadline}
+	return c, func() {
+		c.once.Do(func() {
+			c.mu.Lock()
+			c.err = context.DeadlineExceeded
+			c.mu.Unlock()
+			close(c.done)
+		})
+	}
+}
+
+func (c *expiringCtx) Deadline() (time.Time, bool) { return c.deadline, true }
+func (c *expiringCtx) Done() <-chan struct{}       { return c.done }
+func (c *expiringCtx) Value(any) any               { return nil }
+func (c *expiringCtx) Err() error {
+	c.mu.Lock()
+	defer c.mu.Unlock()
+	return c.err
 }
